@@ -208,6 +208,20 @@ def run_history(work, v, descriptors, tier):
         emit("cycle/in.fa", "ok" if rc == 0 else "failed", hashlib.sha1(canon).hexdigest()[:16], "reformat fasta -i in.fa")
         chains = [["phylip", "fasta"], ["nexus", "fasta"], ["clustal", "fasta"], ["phylip", "nexus", "clustal", "fasta"], ["nexus", "phylip", "fasta"]]
         flag = {"fasta": [], "phylip": ["-p"], "nexus": ["-x"], "clustal": ["-u"]}
+        # the same cycles on a protein alignment with stop codons ('*'), produced by goalign translate
+        rc, aa, _ = run_cli(binary, ["translate", "-i", "in.fa", "--phase", "0"], ind)
+        emit("cycle/aa", "ok" if rc == 0 and b"*" in aa else "failed", hashlib.sha1(aa).hexdigest()[:16], "translate -i in.fa --phase 0")
+        for ch in chains:
+            cur, curfmt, ok = aa, "fasta", True
+            cwd = work.fresh("cyc", "")
+            os.makedirs(cwd)
+            for fmt in ch:
+                open(os.path.join(cwd, "cur"), "wb").write(cur)
+                rc, cur, _ = run_cli(binary, ["reformat", fmt, "-i", "cur"] + flag[curfmt], cwd)
+                ok = ok and rc == 0
+                curfmt = fmt
+            shutil.rmtree(cwd, ignore_errors=True)
+            emit("cycle/aa", "ok" if ok else "failed", hashlib.sha1(cur).hexdigest()[:16], "translate ; reformat " + " -> ".join(ch))
         for ch in chains:
             cur, curfmt, ok = canon, "fasta", True
             cwd = work.fresh("cyc", "")
